@@ -299,6 +299,82 @@ def seeded_refute(goal, inputs, axioms=(), tries=6, seed=0, timeout_ms=20000, as
     return None
 
 
+def is_identity(goal, seconds=10.0):
+    """Quiet check that goal holds for all values (no assumptions): seeded evaluation, then a killable solver run."""
+    from vp import symx
+    for k in range(3):
+        pairs = []
+        for name, (c, vals) in CTX.symbols.items():
+            v = vals[k % len(vals)]
+            pairs.append((c, z3.BitVecVal(v, c.size()) if z3.is_bv(c) else (z3.IntVal(v) if c.is_int() else E.R(v))))
+        try:
+            if z3.is_false(EvalModel(pairs).eval(goal)):
+                return False
+        except z3.Z3Exception:
+            pass
+    s = z3.Solver()
+    s.add(z3.Not(goal))
+    r, _ = symx.forked_check(s, [], seconds, [])
+    return r == 'unsat'
+
+
+def prove_identity(pr, goal, desc, witness_fn=None, sample=True):
+    """Obligations that are identities (valid without any assumption): first a solver without the path condition (nonlinear
+    assumptions in the path condition slow nlsat down by orders of magnitude); the path-condition solver only if that fails."""
+    res = pr.res
+    t = time.time()
+    # cheap refutation: evaluate at the seeded points of the input symbols (a point must satisfy the path condition to be a witness)
+    for k in range(3):
+        pairs = []
+        for name, (c, vals) in CTX.symbols.items():
+            v = vals[k % len(vals)]
+            pairs.append((c, z3.BitVecVal(v, c.size()) if z3.is_bv(c) else (z3.IntVal(v) if c.is_int() else E.R(v))))
+        m = EvalModel(pairs)
+        try:
+            gv = m.eval(goal)
+            if z3.is_false(gv) and all(z3.is_true(m.eval(a)) for a in pr.ex.pc):
+                res['obligations'] += 1
+                res['nontrivial'] += 1
+                w = witness_fn(m) if witness_fn else dict(what=desc)
+                w.setdefault('what', desc)
+                w['route'] = 'identity refuted by evaluation at a seeded point'
+                res['failures'].append(w)
+                if len(res['samples']) < 6:
+                    res['samples'].append(dict(obligation=desc, verdict='sat (seeded point)'))
+                return False
+        except z3.Z3Exception:
+            pass
+    from vp import symx
+    s = z3.Solver()
+    s.add(z3.Not(goal))
+    r, _ = symx.forked_check(s, [], 15.0, [])
+    res['queries'] += 1
+    res['solver_s'] += time.time() - t
+    if r == 'unsat':
+        res['obligations'] += 1
+        res['nontrivial'] += 1
+        res['discharged'] += 1
+        if sample and len(res['samples']) < 3:
+            res['samples'].append(dict(obligation=desc, verdict='unsat (identity, no assumptions needed)', ms=round((time.time() - t) * 1000, 1)))
+        return True
+    # not an identity by itself: decide it under the path condition, in a killable child
+    syms = [(n, c) for n, (c, _) in CTX.symbols.items()]
+    res['obligations'] += 1
+    res['nontrivial'] += 1
+    r, vals = pr.ex.prove_forked(goal, 25.0, syms)
+    if r == 'unsat':
+        res['discharged'] += 1
+        return True
+    if r == 'sat':
+        m = model_from_values(vals, syms)
+        w = witness_fn(m) if witness_fn else dict(what=desc)
+        w.setdefault('what', desc)
+        res['failures'].append(w)
+        return False
+    res['unknown'].append(f'{desc}: solver inconclusive (killed after 25 s)')
+    return False
+
+
 def explore(res, body, max_paths=2000, timeout_ms=30000, float_mode='regular', precision=None):
     """Run body(ex, PathProver) over all paths; folds executor statistics into res."""
     from vp import symx
